@@ -42,8 +42,8 @@ def strategy(draw):
                            second_bump=draw(st.booleans())))
     rng = [None, None]
     if draw(gen.chance(3)):
-        lo = draw(st.one_of(st.none(), st.sampled_from(f[: nf // 2]), gen.floats(f[0] * 0.5, f[nf // 2])))
-        hi = draw(st.one_of(st.none(), st.sampled_from(f[nf // 2:]), gen.floats(f[nf // 2], f[-1] * 1.5)))
+        lo = draw(st.one_of(st.none(), st.sampled_from(f[: nf // 2]), gen.floats(f[0] * 0.5, f[nf // 2]), st.sampled_from([0.0, -float("inf")])))
+        hi = draw(st.one_of(st.none(), st.sampled_from(f[nf // 2:]), gen.floats(f[nf // 2], f[-1] * 1.5), st.sampled_from([float("inf"), 1e20])))
         rng = [lo, hi]
     return dict(f=f, naz=naz, groups=groups,
                 n=draw(st.one_of(gen.floats(0.3, 4.0), st.sampled_from([1.0, 1.25, 1.5, 2.0, 2.5]))),
@@ -51,6 +51,24 @@ def strategy(draw):
                 dist_fn=draw(st.sampled_from(["lognormal", "normal"])), dist_mc=draw(st.sampled_from(["lognormal", "normal"])),
                 range=rng, perm_seed=draw(st.integers(0, 10 ** 6)), k=draw(st.sampled_from([-4, -1, 1, 3])),
                 pre_td=pre_td)
+
+
+BIG = {"quick": 16, "thorough": 160}
+
+
+@st.composite
+def strategy_big(draw):
+    """Deployment-scale window counts: 512 .. 6000 windows per azimuth (a day of 30 s windows is 2880), including the
+    1000 / 1001 boundary at which numpy starts to abbreviate printed arrays."""
+    case = draw(strategy())
+    common = draw(st.one_of(gen.big_size(512, 6000), st.sampled_from([1000, 1001, 1500, 3000])))
+    for g in case["groups"][:2]:
+        g["nwin"] = common if case["pre_td"] != "none" else draw(st.one_of(gen.big_size(512, 6000), st.sampled_from([1000, 1001, 1500, 3000])))
+        g["outlier_frac"] = draw(st.sampled_from([0.1, 0.25, 0.4]))
+    case["groups"] = case["groups"][:2]
+    case["naz"] = min(case["naz"], 2)
+    case["big"] = True
+    return case
 
 
 def expand_group(g, f):
@@ -195,6 +213,8 @@ def check_case(case):
     groups = [expand_group(g, f) for g in case["groups"]]
     az = case["naz"] > 0
     labels = ["azimuthal" if az else "traditional", f"{case['dist_fn']}/{case['dist_mc']}"]
+    if case.get("big"):
+        labels.append("big->1000-windows" if max(len(A) for A in groups) > 1000 else "big-<=1000-windows")
     if rng != [None, None]:
         labels.append("bounded-range")
 
